@@ -13,12 +13,13 @@ import os, re, subprocess
 from ..common import MachineryError, REPO
 from .. import build, tlc, run, idb
 
-DECLS = "struct S {};\nstruct V {};\nnamespace ns { struct K {}; struct V {}; }\ntemplate<class A1, class A2> struct Pair {};\n"
+DECLS = "struct S {};\nstruct V {};\nnamespace ns { struct K {}; struct V {}; }\ntemplate<class A1, class A2> struct Pair {};\ntemplate<class A1> struct Box {};\n"
 PRELUDE = r'''#include <type_traits>
 struct S {};
 struct V {};
 namespace ns { struct K {}; struct V {}; }
 template<class A1, class A2> struct Pair {};
+template<class A1> struct Box {};
 template<class Rt, class... Ar> using CF = Rt(Ar...) const;
 template<class T> using C = const T;
 template<class T> using P = T *;
@@ -28,7 +29,8 @@ template<class T> using M = T S::*;
 template<class T, int N> using A = T[N];
 template<class Rt, class... Ar> using F = Rt(Ar...);
 '''
-FORMS = ("v", "td", "fp")
+FORMS = ("v", "td", "fp", "us", "ta")
+# us: alias-declaration  using us_n = <type-id>;   ta: template argument  extern Box<type-id> ta_n;
 
 
 def decl(form, n, rec):
@@ -37,21 +39,32 @@ def decl(form, n, rec):
         return "extern " + rec["v"].replace("@", name) + ";"
     if form == "td":
         return "typedef " + rec["v"].replace("@", name) + ";"
+    if form == "us":
+        return "using %s = %s;" % (name, abstract(rec))
+    if form == "ta":
+        return "extern Box< %s > %s;" % (abstract(rec), name)
     return "void %s(%s);" % (name, rec["v"].replace("@", "p").rstrip())
+
+
+def abstract(rec):
+    """the type-id (abstract declarator) of the term"""
+    return " ".join(rec["v"].replace("@", "").split()).replace("( ", "(").replace(" )", ")")
 
 
 def sanity_assert(form, n, rec):
     name = "%s_%d" % (form, n)
     if form == "v":
         return "static_assert(std::is_same<decltype(%s), %s>::value, \"%s\");" % (name, rec["s"], name)
-    if form == "td":
+    if form in ("td", "us"):
         return "static_assert(std::is_same<%s, %s>::value, \"%s\");" % (name, rec["s"], name)
+    if form == "ta":
+        return "static_assert(std::is_same<decltype(%s), Box< %s > >::value, \"%s\");" % (name, rec["s"], name)
     return "static_assert(std::is_same<decltype(%s), void(%s)>::value, \"%s\");" % (name, rec["s"], name)
 
 
 def same_assert(form, n, ns):
     name = "%s_%d" % (form, n)
-    if form == "td":
+    if form in ("td", "us"):
         return "static_assert(std::is_same< ::%s, %s::%s>::value, \"%s\");" % (name, ns, name, name)
     return "static_assert(std::is_same<decltype(::%s), decltype(%s::%s)>::value, \"%s\");" % (name, ns, name, name)
 
@@ -93,12 +106,14 @@ def classes_of(form, sh, text=""):
             out.append("C06-data-member-pointer")
     if form == "fp" and (sh[0].startswith("fn") or sh[0].startswith("cfn")):
         out.append("C06-function-typed-parameter")
-    if form in ("v", "td") and class_base_paren(text):
+    if form in ("v", "td", "us", "ta") and class_base_paren(text):
         out.append("C06-paren-declarator-class-base")
+    if form in ("us", "ta") and "(" in text:
+        out.append("C06-typeid-paren-abstract-declarator")
     return out
 
 
-ENT = re.compile(r"\b(v|td|fp)_(\d+)\b")
+ENT = re.compile(r"\b(v|td|fp|us|ta)_(\d+)\b")
 ERRLINE = re.compile(r"^[^:\s]+:(\d+):\d+: error", re.M)
 
 
@@ -177,7 +192,7 @@ def run_check(ctx):
     def compare(view, texts):
         """texts: entity -> printed declaration text.  Returns entities whose printed text differs."""
         todo = [e for e in accepted if e in texts]
-        lines = ['#include "prelude.h"'] + [D[e] for e in todo] + ["namespace printed {", "using ::S; using ::V; using ::Pair;"]
+        lines = ['#include "prelude.h"'] + [D[e] for e in todo] + ["namespace printed {", "using ::S; using ::V; using ::Pair; using ::Box;"]
         owner = {}
         for e in todo:
             lines.append(texts[e])
@@ -195,7 +210,7 @@ def run_check(ctx):
         # the remaining entities must compile cleanly together
         if bad_ents:
             keep = [e for e in todo if e not in bad_ents]
-            lines2 = ['#include "prelude.h"'] + [D[e] for e in keep] + ["namespace printed {", "using ::S; using ::V; using ::Pair;"] + \
+            lines2 = ['#include "prelude.h"'] + [D[e] for e in keep] + ["namespace printed {", "using ::S; using ::V; using ::Pair; using ::Box;"] + \
                      [texts[e] for e in keep] + ["}"] + [same_assert(e[0], e[1], "printed") for e in keep]
             open(os.path.join(work, "cmp2_%s.cxx" % view), "w").write("\n".join(lines2) + "\n")
             b2, err2 = gxx_bad_lines(work, "cmp2_%s.cxx" % view)
